@@ -55,7 +55,9 @@ func (m *Model) RecordReading(val float32) (*traits.MeterReading, error) {
 		now := m.meterReading.Clock().Now()
 		newVal := new.(*traits.MeterReading)
 		newVal.EndTime = timestamppb.New(now)
-	}))
+	}),
+		// only the usage and the end of the period change, the start (and what was produced) stays
+		resource.WithUpdatePaths("usage", "end_time"))
 }
 
 // Reset resets the meter to zero, updating both start and end times to now.
